@@ -41,6 +41,42 @@ var config = []fnCfg{
 	{Name: "Line.Target", File: "client/line.go"},
 	{Name: "Line.Public", File: "client/line.go"},
 	{Name: "hasPort", File: "client/connection.go"},
+	// v2: the command methods of *Conn (state threaded, conn.out is a queue: see structTable in types.go)
+	{Name: "Conn.Raw", File: "client/commands.go"},
+	{Name: "Conn.Pass", File: "client/commands.go"},
+	{Name: "Conn.Nick", File: "client/commands.go"},
+	{Name: "Conn.User", File: "client/commands.go"},
+	{Name: "Conn.Join", File: "client/commands.go"},
+	{Name: "Conn.Part", File: "client/commands.go"},
+	{Name: "Conn.Kick", File: "client/commands.go"},
+	{Name: "Conn.Quit", File: "client/commands.go"},
+	{Name: "Conn.Whois", File: "client/commands.go"},
+	{Name: "Conn.Who", File: "client/commands.go"},
+	{Name: "Conn.Privmsg", File: "client/commands.go"},
+	{Name: "Conn.Privmsgln", File: "client/commands.go"},
+	{Name: "Conn.Privmsgf", File: "client/commands.go"},
+	{Name: "Conn.Notice", File: "client/commands.go"},
+	{Name: "Conn.Ctcp", File: "client/commands.go"},
+	{Name: "Conn.CtcpReply", File: "client/commands.go"},
+	{Name: "Conn.Version", File: "client/commands.go"},
+	{Name: "Conn.Action", File: "client/commands.go"},
+	{Name: "Conn.Topic", File: "client/commands.go"},
+	{Name: "Conn.Mode", File: "client/commands.go"},
+	{Name: "Conn.Away", File: "client/commands.go"},
+	{Name: "Conn.Invite", File: "client/commands.go"},
+	{Name: "Conn.Oper", File: "client/commands.go"},
+	{Name: "Conn.VHost", File: "client/commands.go"},
+	{Name: "Conn.Ping", File: "client/commands.go"},
+	{Name: "Conn.Pong", File: "client/commands.go"},
+	{Name: "Conn.Cap", File: "client/commands.go"},
+	{Name: "Conn.Authenticate", File: "client/commands.go"},
+	{Name: "DefaultNewNick", File: "client/connection.go"},
+	{Name: "capSet.Add", File: "client/handlers.go", Stores: []string{"c.caps[cap[1:]]", "c.caps[cap]"}},
+	{Name: "capSet.Clear", File: "client/handlers.go"},
+	{Name: "capSet.Has", File: "client/handlers.go"},
+	{Name: "capSet.Intersect", File: "client/handlers.go"},
+	{Name: "capSet.Slice", File: "client/handlers.go"},
+	{Name: "capSet.Size", File: "client/handlers.go"},
 }
 
 // pkg is what is known about the Go package: declarations only, no type checking.
@@ -178,6 +214,16 @@ func main() {
 			}
 		}
 	}
+	// threaded: a pointer method of a struct in structTable that mutates its receiver (a queue send, a
+	// store through a field) or calls such a method on its receiver returns the new receiver.
+	for changed := true; changed; {
+		changed = false
+		for _, c := range config {
+			if s := p.sigs[c.Name]; s != nil && !s.threaded && mutatesRecv(p, p.funcs[c.Name]) {
+				s.threaded, changed = true, true
+			}
+		}
+	}
 	var order []string // callees first, otherwise config order; a cycle = recursion = unsupported
 	state := map[string]int{}
 	var visit func(n string)
@@ -204,7 +250,7 @@ func main() {
 		o := byName[n]
 		if o.reason == "" {
 			for _, c := range o.calls {
-				if byName[c].lean == "" {
+				if byName[c].lean == "" && !ambiguous(c) {
 					o.reason = "calls " + c + ", which is unsupported"
 				}
 			}
@@ -224,7 +270,11 @@ func main() {
 
 	var b strings.Builder
 	b.WriteString("/-\nGENERATED by harness/cmd/go2lean from the Go sources of github.com/fluffle/goirc (package client).\nDO NOT EDIT: regenerate with `go2lean -repo /repo -out lean/Goirc/Gen/Pure.lean`.\n")
-	b.WriteString("Each `def` is the literal translation of the Go function quoted above it, in `Except Go.Rt.Panic`.\n-/\n")
+	b.WriteString("Each `def` is the literal translation of the Go function quoted above it, in `Except Go.Rt.Panic`.\n")
+	b.WriteString("Conventions beyond the plain subset (see Goirc/Go/Rt.lean, \"v2 additions\"):\n")
+	b.WriteString("* a pointer method that mutates its receiver (struct listed in the translator's struct table) takes the receiver by\n  value and returns the new one: `conn.Raw(x)` is `conn ← Conn_Raw conn x`;\n")
+	b.WriteString("* a `chan string` field listed as a queue is a `List Bytes`, oldest first; `conn.out <- v` appends at the tail; blocking\n  on a full channel and the receiving side are not modelled;\n")
+	b.WriteString("* `x.mu.Lock()/Unlock()/RLock()/RUnlock()` and `defer x.mu.Unlock()/RUnlock()` on a field declared sync.Mutex or\n  sync.RWMutex are dropped (sequential semantics), leaving a `-- dropped:` comment; so are logging.* / runtime.* calls.\n-/\n")
 	b.WriteString("import Goirc.Go.Rt\nset_option linter.unusedVariables false\nopen Go\nnamespace Gen\n\n")
 	var decls []string
 	for u := range used {
@@ -234,8 +284,19 @@ func main() {
 		a, c := p.fset.Position(p.pos[decls[i]]), p.fset.Position(p.pos[decls[j]])
 		return a.Filename < c.Filename || a.Filename == c.Filename && a.Offset < c.Offset
 	})
+	done := map[string]bool{}
+	var emitDecl func(u string)
+	emitDecl = func(u string) { // a struct after the structs its fields need
+		if !done[u] {
+			done[u] = true
+			for _, d := range p.structDeps(u) {
+				emitDecl(d)
+			}
+			b.WriteString(p.declLean(u))
+		}
+	}
 	for _, u := range decls {
-		b.WriteString(p.declLean(u))
+		emitDecl(u)
 	}
 	b.WriteString("\n")
 	bad := 0
@@ -293,16 +354,71 @@ func scanCalls(p *pkg, fd *ast.FuncDecl) (calls []string, ext bool) {
 			if x, ok := f.X.(*ast.Ident); ok && x.Name == "strings" && (f.Sel.Name == "ToUpper" || f.Sel.Name == "ToLower") {
 				ext = true
 			}
-			for _, c := range config {
-				if strings.HasSuffix(c.Name, "."+f.Sel.Name) {
-					name = c.Name
-				}
+			name = "." + f.Sel.Name
+		}
+		for _, c := range config { // x.M(): every listed T.M (the receiver's type is not known here)
+			if (c.Name == name || strings.HasPrefix(name, ".") && strings.HasSuffix(c.Name, name)) && !seen[c.Name] {
+				seen[c.Name] = true
+				calls = append(calls, c.Name)
 			}
 		}
+		return true
+	})
+	return
+}
+
+// ambiguous: is there another listed method of the same name on a different type?  (scanCalls
+// cannot tell them apart, so a failed namesake must not fail the caller.)
+func ambiguous(name string) bool {
+	n := 0
+	if i := strings.Index(name, "."); i >= 0 {
 		for _, c := range config {
-			if c.Name == name && !seen[name] {
-				seen[name] = true
-				calls = append(calls, name)
+			if strings.HasSuffix(c.Name, name[i:]) {
+				n++
+			}
+		}
+	}
+	return n > 1
+}
+
+// mutatesRecv: does this pointer method of a struct listed in structTable mutate its receiver r:
+// `r.f <- v`, `r.f = v`, `r.f[k] = v`, r.f++, or `r.M(…)` with M already known to?
+func mutatesRecv(p *pkg, fd *ast.FuncDecl) (yes bool) {
+	if fd.Recv == nil || len(fd.Recv.List[0].Names) != 1 || !strings.HasPrefix(typeStr(fd.Recv.List[0].Type), "*") || structRow(typeStr(fd.Recv.List[0].Type)) == nil {
+		return false
+	}
+	r, t := fd.Recv.List[0].Names[0].Name, strings.TrimPrefix(typeStr(fd.Recv.List[0].Type), "*")
+	rooted := func(e ast.Expr) bool { // r.f, r.f[k], r.f.g …
+		for depth := 0; ; depth++ {
+			switch x := e.(type) {
+			case *ast.SelectorExpr:
+				e = x.X
+			case *ast.IndexExpr:
+				e = x.X
+			case *ast.ParenExpr:
+				e = x.X
+			case *ast.Ident:
+				return x.Name == r && depth > 0
+			default:
+				return false
+			}
+		}
+	}
+	ast.Inspect(fd.Body, func(n ast.Node) bool {
+		switch n := n.(type) {
+		case *ast.SendStmt:
+			yes = yes || rooted(n.Chan)
+		case *ast.AssignStmt:
+			for _, l := range n.Lhs {
+				yes = yes || rooted(l)
+			}
+		case *ast.IncDecStmt:
+			yes = yes || rooted(n.X)
+		case *ast.CallExpr:
+			if m, ok := n.Fun.(*ast.SelectorExpr); ok {
+				if x, ok := m.X.(*ast.Ident); ok && x.Name == r && p.sigs[t+"."+m.Sel.Name] != nil && p.sigs[t+"."+m.Sel.Name].threaded {
+					yes = true
+				}
 			}
 		}
 		return true
